@@ -286,35 +286,38 @@ class BaseEngine(abc.ABC):
                 received_rolled = tdm_options.pop("received_rolled")
                 kwargs.update(tdm_options)
 
-            if prev is None:
-                # initialize the backend
-                self._init_backend(p.init_num_subsystems)
-            else:
-                # there was a previous program segment
-                if not p.can_follow(prev):
-                    raise RuntimeError(
-                        f"Register mismatch: program {len(self.run_progs)}, '{p.name}'."
-                    )
+            try:
+                if prev is None:
+                    # initialize the backend
+                    self._init_backend(p.init_num_subsystems)
+                else:
+                    # there was a previous program segment
+                    if not p.can_follow(prev):
+                        raise RuntimeError(
+                            f"Register mismatch: program {len(self.run_progs)}, '{p.name}'."
+                        )
 
-                # Copy the latest measured values in the RegRefs of p.
-                # We cannot copy from prev directly because it could be used in more than one
-                # engine.
-                for k, v in self._measured_vals.items():
-                    p.reg_refs[k].val = v
+                    # Copy the latest measured values in the RegRefs of p.
+                    # We cannot copy from prev directly because it could be used in more than one
+                    # engine.
+                    for k, v in self._measured_vals.items():
+                        p.reg_refs[k].val = v
 
-            # bind free parameters to their values
-            p.bind_params(args)
-            p.lock()
+                # bind free parameters to their values
+                p.bind_params(args)
+                p.lock()
 
-            _, self.samples, self.samples_dict = self._run_program(p, **kwargs)
+                _, self.samples, self.samples_dict = self._run_program(p, **kwargs)
+            finally:
+                # also when the run fails: the unrolled copy shares its register with the user's program
+                if isinstance(p, TDMProgram) and received_rolled:
+                    p.roll()
+
             self.run_progs.append(p)
             if not isinstance(p, TDMProgram):
                 # remember the latest value of each measured subsystem for the next segment
                 for k, v in (self.samples_dict or {}).items():
                     self._measured_vals[k] = v[-1]
-
-            if isinstance(p, TDMProgram) and received_rolled:
-                p.roll()
 
             prev = p
 
